@@ -87,17 +87,24 @@ func (e *Eng) configure() error {
 	return nil
 }
 
-// lemmaEnc builds the pseudo function holding lemma and induction obligations.
+// lemmaEnc builds the pseudo function holding lemma and induction obligations. A lemma is proved
+// from the axioms of its own theory and the earlier lemmas of that theory.
 func (e *Eng) lemmaEnc(want func([]string) bool) *FnEnc {
 	f := &FnEnc{e: e, name: "lemma", kindN: map[string]int{}}
-	any := true
 	// vacuity guard for the theory prelude: it must not be refutable on its own
-	f.obls = append(f.obls, &Obligation{Func: "lemma", Kind: "cover", Label: "prelude", Name: "prelude/cover/consistent", Pos: 0, At: "true", Goal: "true", Cover: true, Src: "prelude", LongCover: true})
-	// lemmas are proved in order; each may use the earlier ones
+	all := []string{}
+	seen := map[string]bool{}
+	for _, p := range e.cs.Prelude {
+		if p.Theory != "" && !seen[p.Theory] {
+			seen[p.Theory] = true
+			all = append(all, p.Theory)
+		}
+	}
+	f.out.WriteString(e.theoryText(all))
+	f.obls = append(f.obls, &Obligation{Func: "lemma", Kind: "cover", Label: "prelude", Name: "prelude/cover/consistent", Pos: f.out.Len(), At: "true", Goal: "true", Cover: true, Src: "prelude", LongCover: true})
 	for _, l := range e.cs.Lemmas {
 		if want(l.Tags) {
 			f.obls = append(f.obls, &Obligation{Func: "lemma", Kind: "lemma", Label: l.Label, Name: "lemma/" + l.Label, Tags: l.Tags, Pos: f.out.Len(), At: "true", Goal: l.Expr.String(), Src: l.Src})
-			any = true
 		}
 		fmt.Fprintf(&f.out, "(assert %s)\n", l.Expr.String())
 	}
@@ -108,24 +115,26 @@ func (e *Eng) lemmaEnc(want func([]string) bool) *FnEnc {
 			step := fmt.Sprintf("(forall ((%s Int)) (=> (and (>= %s 0) %s) (let ((%s (+ %s 1))) %s)))", in.Var, in.Var, body, in.Var, in.Var, body)
 			f.obls = append(f.obls, &Obligation{Func: "lemma", Kind: "lemma", Label: in.Label + ".base", Name: "lemma/" + in.Label + ".base", Tags: in.Tags, Pos: f.out.Len(), At: "true", Goal: base, Src: in.Src})
 			f.obls = append(f.obls, &Obligation{Func: "lemma", Kind: "lemma", Label: in.Label + ".step", Name: "lemma/" + in.Label + ".step", Tags: in.Tags, Pos: f.out.Len(), At: "true", Goal: step, Src: in.Src})
-			any = true
 		}
 		fmt.Fprintf(&f.out, "(assert (forall ((%s Int)) (=> (>= %s 0) %s)))\n", in.Var, in.Var, body)
-	}
-	if !any {
-		return nil
 	}
 	return f
 }
 
-// lemmaAxioms returns the lemma conclusions as assertions for use by function obligations.
-func (e *Eng) lemmaAxioms() string {
+// lemmaAxioms returns the axioms and lemma conclusions of the used theories (unscoped lemmas are
+// always included).
+func (e *Eng) lemmaAxioms(uses []string) string {
 	var b strings.Builder
+	b.WriteString(e.theoryText(uses))
 	for _, l := range e.cs.Lemmas {
-		fmt.Fprintf(&b, "(assert %s) ; lemma %s\n", l.Expr.String(), l.Label)
+		if l.Theory == "" || hasTag(uses, l.Theory) {
+			fmt.Fprintf(&b, "(assert %s) ; lemma %s\n", l.Expr.String(), l.Label)
+		}
 	}
 	for _, in := range e.cs.Inducts {
-		fmt.Fprintf(&b, "(assert (forall ((%s Int)) (=> (>= %s 0) %s))) ; induct %s\n", in.Var, in.Var, in.Body.String(), in.Label)
+		if in.Theory == "" || hasTag(uses, in.Theory) {
+			fmt.Fprintf(&b, "(assert (forall ((%s Int)) (=> (>= %s 0) %s))) ; induct %s\n", in.Var, in.Var, in.Body.String(), in.Label)
+		}
 	}
 	return b.String()
 }
